@@ -222,6 +222,13 @@ def mon_c03(tr: Trace) -> list[Violation]:
     out: list[Violation] = []
     calls = _runner_calls(tr)
     for c in calls:
+        if c.after is not None and c.kind == "rewind":
+            # the start of a (resumed) run: the rewind restarts as many pending invocations as there are worker slots
+            for name, ws in c.after.workers.items():
+                if ws.queue and len(ws.in_progress) < ws.config.num_workers:
+                    out.append(Violation("C03/stalled_queue_after_rewind", f"{name} starts the run with {len(ws.queue)} queued event(s) but only "
+                                         f"{len(ws.in_progress)}/{ws.config.num_workers} workers running", _replay(tr)))
+                    return out
         if c.after is None or c.kind != "reduce":
             continue
         if c.after.is_running and not _is_exit(c.cmds):
